@@ -1,4 +1,5 @@
 import Spine.TeardownKeys
+import Spine.TeardownKeysAgree
 /-!
 # C10 — the all-and-only clauses as a FRAME theorem over identity keys, the removal events, the resolution
 
@@ -143,6 +144,24 @@ theorem c10k_reachable (F : Facts) (hF : F.ok = true) (ops : List Op) (hok : okR
 example : okRun Facts.head { conns := [] }
     [.connect ⟨1, 101, [[0], [1]]⟩, .connect ⟨2, 102, [[0], [1]]⟩, .entry false 1 1 [1] 1 [1] 1, .entry true 1 2 [1] 1 [1] 1,
      .drop 1, .connect ⟨1, 101, [[0], [1]]⟩, .dropEnt 2 [1]] = true := by decide
+
+/-! ## agreement with the one-number model of `Spine.Props.C10` -/
+
+/-- Cross-model agreement: `Spine.Reg` (a peer is ONE number; the model of `C10.c10_drop_exact`, `C08`, `C09`) is the
+    abstraction peer := connection of this model. In every state of the invariant and for every choice of comparisons that
+    names peer and entity, the device teardown over keys projects to `Reg.removePeer` of the repaired member, and the
+    abstraction of such a state satisfies `Reg.Sane` — the hypothesis of the `C10` theorems. -/
+theorem c10k_agrees_with_registry_model (F : Facts) (hF : F.ok = true) (s : St) (hs : Inv s) (k : Nat) (c : Conn) (hk : forSki s k = some c) :
+    Reg.Sane (abs s) ∧
+    (abs (drop F s k).1).subs = (Reg.removePeer Reg.Cfg.clean (abs s) k).subs ∧
+    (abs (drop F s k).1).binds = (Reg.removePeer Reg.Cfg.clean (abs s) k).binds :=
+  ⟨abs_sane s hs, drop_agrees_reg F hF s hs k c hk⟩
+
+/-- non-vacuity: the abstraction of the example world has both peers' entries; the pinned comparisons do NOT project to the
+    repaired registry model (they are its `dropBindsAnyPeer` member) -/
+example : ((abs w0).subs.map fun e => (e.peer, e.cEnt, e.cFeat)) = [(1, [1], 1), (2, [1], 1), (1, [1, 1], 1)] ∧
+    (abs (drop Facts.pinned w0 1).1).binds ≠ (Reg.removePeer Reg.Cfg.clean (abs w0) 1).binds ∧
+    (abs (drop Facts.pinned w0 1).1).binds = (Reg.removePeer {} (abs w0) 1).binds := by decide
 
 /-! ## what the comparisons must provide -/
 
